@@ -108,7 +108,7 @@ func c07H2Script(s *verifh.Session, sid uint32) ([]byte, []string) {
 			body = c07Gzip(body)
 		case 1:
 			g := c07Gzip(body)
-			body = g[:r.Intn(len(g))]
+			body = g[:c07Intn(r, len(g))]
 		}
 	}
 	switch r.Intn(4) {
@@ -244,7 +244,7 @@ func c07H2Script(s *verifh.Session, sid uint32) ([]byte, []string) {
 	if endStream == 0 {
 		rest := body
 		for len(rest) > 0 {
-			n := 1 + r.Intn(len(rest))
+			n := 1 + c07Intn(r, len(rest))
 			if n > 16384 {
 				n = 16384
 			}
@@ -283,12 +283,12 @@ func c07H2Script(s *verifh.Session, sid uint32) ([]byte, []string) {
 	res := out.Bytes()
 	if r.Intn(6) == 0 && len(res) > 0 {
 		for k := 1 + r.Intn(3); k > 0; k-- {
-			res[r.Intn(len(res))] = byte(r.Intn(256))
+			res[c07Intn(r, len(res))] = byte(r.Intn(256))
 		}
 		tag("mutated")
 	}
 	if r.Intn(8) == 0 && len(res) > 0 {
-		res = res[:r.Intn(len(res))]
+		res = res[:c07Intn(r, len(res))]
 		tag("cut")
 	}
 	return res, tags
@@ -437,8 +437,10 @@ func TestVerif_C07_h2hostile(t *testing.T) {
 	g0 := runtime.NumGoroutine()
 	n := verifh.N(500, 15000)
 	for i := 0; i < n; i++ {
-		script, tags := c07H2Script(s, 1)
-		oi := s.Rand().Intn(len(opts))
+		var script []byte
+		var tags []string
+		c07Gen(t, "h2hostile frame script", func() { script, tags = c07H2Script(s, 1) })
+		oi := c07Intn(s.Rand(), len(opts))
 		method := verifh.Pick(s.Rand(), []int{0, 0, 1, 2})
 		path := "/" + strconv.Itoa(i)
 		peer.set(path, c07Script{data: script})
